@@ -59,29 +59,68 @@ def run(ctx):
         return r
 
     # ---------------- R19.1 guards in the main function
-    # all three lists are checked for order
+    # the order / uniqueness test of the selectors, wherever it sits (inline in the main function or in a helper of the
+    # crate it calls), ranges over the three lists, compares *adjacent* entries and rejects Equal and Greater
+    def has_selector_cmp(f_):
+        return any(c.name() == "cmp" and any("f:selector" in op_prov(f_, a_) for a_ in c.args) for c in f_.calls())
+    sel = main if has_selector_cmp(main) else None
+    via = []
+    if sel is None:
+        for c in main.calls():
+            g_ = F.fns.get(c.path)
+            if g_ is not None and g_.body and g_.crate == main.crate and has_selector_cmp(g_):
+                sel = g_
+                via.append(c)
+    KINDS3 = ("constructor", "external", "l1_handler")
     three = None
-    for _, _, st in main.stmts():
-        if st[0] == "a" and st[2][0] == "agg" and st[2][1] == "array" and len(st[2][3]) == 3:
-            ps = [op_prov(main, o, 6) for o in st[2][3]]
-            names = []
-            for p in ps:
-                hit = [n for n in ("constructor", "external", "l1_handler") if "f:" + n in p]
-                names.append(hit[0] if len(hit) == 1 else None)
-            if None not in names:
-                three = names
-    ctx.ob("R19.1", "selector-order:three-lists", three is not None and sorted(three) == ["constructor", "external", "l1_handler"],
-           "order/uniqueness loop ranges over %s" % (three,), main.where())
-    g("R19.1", "selector-order:Equal=>Duplicate", main, CallResult("::cmp", "0", arg="f:selector"),
-      err=(SSCE, "DuplicateEntryPointSelector"))
-    g("R19.1", "selector-order:Greater=>OutOfOrder", main, CallResult("::cmp", "1", arg="f:selector"),
-      err=(SSCE, "EntryPointsOutOfOrder"))
-    for c in [c for c in main.calls() if c.name() == "cmp"]:
-        if any("f:selector" in op_prov(main, a) for a in c.args):
-            p0, p1 = op_prov(main, c.args[0]), op_prov(main, c.args[1])
-            ctx.ob("R19.1", "selector-order:operands", "f:selector" in p0 and "f:selector" in p1 and
-                   (("f:0" in p0 and "f:1" in p1 and "f:1" not in p0) or ("n:prev" in p0 and "n:next" in p1)),
-                   "prev.selector.cmp(&next.selector)", c.where())
+    if sel is main:
+        for _, _, st in main.stmts():
+            if st[0] == "a" and st[2][0] == "agg" and st[2][1] == "array" and len(st[2][3]) == 3:
+                ps = [op_prov(main, o, 6) for o in st[2][3]]
+                names = []
+                for p in ps:
+                    hit = [n for n in KINDS3 if "f:" + n in p]
+                    names.append(hit[0] if len(hit) == 1 else None)
+                if None not in names:
+                    three = names
+    elif sel is not None:
+        names = []
+        for c in via:
+            toks = set()
+            for a_ in c.args:
+                toks |= op_prov(main, a_, 8)
+            hit = [n for n in KINDS3 if "f:" + n in toks]
+            used = _result_propagated(main, c)
+            if len(hit) == 1 and used:
+                names.append(hit[0])
+            elif len(hit) == 3 and used:
+                names += list(hit)        # called in a loop over the three lists
+        three = names
+    ctx.ob("R19.1", "selector-order:three-lists", three is not None and sorted(set(three)) == sorted(KINDS3),
+           "order/uniqueness test ranges over %s%s" % (three, "" if sel is main or sel is None else " (through %s, result propagated)" % last_seg(sel.path)),
+           main.where())
+    if sel is None:
+        ctx.ob("R19.1", "selector-order:test", False, "no comparison of entry point selectors found in the class compiler", main.where())
+    else:
+        ctx.analysed(sel)
+        g("R19.1", "selector-order:Equal=>Duplicate", sel, CallResult("::cmp", "0", arg="f:selector"),
+          err=(SSCE, "DuplicateEntryPointSelector"))
+        g("R19.1", "selector-order:Greater=>OutOfOrder", sel, CallResult("::cmp", "1", arg="f:selector"),
+          err=(SSCE, "EntryPointsOutOfOrder"))
+        names_in = [c.name() for c in sel.calls()]
+        overlapping = [n for n in names_in if n in ("tuple_windows", "windows", "array_windows", "circular_tuple_windows", "is_sorted_by")]
+        skipping = [n for n in names_in if n in ("tuples", "chunks", "chunks_exact", "array_chunks", "step_by", "tuple_combinations")]
+        zip_skip = "zip" in names_in and "skip" in names_in
+        ctx.ob("R19.1", "selector-order:adjacent-pairs", (bool(overlapping) or zip_skip) and not skipping,
+               "every adjacent pair of entry points is compared (%s)" % (overlapping or ["zip+skip"])[0] if (overlapping or zip_skip) and not skipping else
+               "the selectors are compared over `%s`, which does not visit every adjacent pair: an out-of-order or repeated selector between two "
+               "visited groups is accepted" % (skipping or ["an unrecognised pairing"])[0], sel.where())
+        for c in [c for c in sel.calls() if c.name() == "cmp"]:
+            if any("f:selector" in op_prov(sel, a) for a in c.args):
+                p0, p1 = op_prov(sel, c.args[0]), op_prov(sel, c.args[1])
+                ctx.ob("R19.1", "selector-order:operands", "f:selector" in p0 and "f:selector" in p1 and
+                       (("f:0" in p0 and "f:1" in p1 and "f:1" not in p0) or ("n:prev" in p0 and "n:next" in p1)),
+                       "prev.selector.cmp(&next.selector)", c.where())
     # constructor shape
     sinks = blocks_constructing(main, SSCE, "InvalidConstructorEntryPoint")
     anchor = [c.bb for c in main.calls_to("ProgramRegistryInfo::new")]
@@ -410,6 +449,12 @@ def run(ctx):
 
     ctx.floor("C19 obligations", len(ctx.obligations), 28)
     _controls(ctx, F, ids, proto)
+
+
+def _result_propagated(fn, c):
+    """The Result of the call is not dropped: it flows to the function's return value (`?`, return)."""
+    fl = fn.flows_to(place_local(c.dest))
+    return 0 in fl or any(x.name() in ("branch", "from_residual") and any(op_local(a) in fl | {place_local(c.dest)} for a in x.args) for x in fn.calls())
 
 
 def _is_len_switch(fn, bb, marker):
